@@ -17,7 +17,9 @@ for f in sorted(glob.glob("/tmp/seed/confirm_ref*.jsonl")):
             continue
         if "ref" in d:
             conf[d["ref"]] = d   # later files override earlier ones
-only = sys.argv[1:]
+# --open: a refactoring the checks are NOT silent on (a documented limit): stored under seeded_open/, never used as a trial
+OPEN = "--open" in sys.argv
+only = [a for a in sys.argv[1:] if a != "--open"]
 for sd, c in sorted(conf.items()):
     prop, x = sd.split("/")[3], sd.split("/")[5]
     name = f"{prop}-{x}"
@@ -27,7 +29,7 @@ for sd, c in sorted(conf.items()):
     if not ok:
         print("NOT CONFIRMED", name, {k: c.get(k) for k in ("demo_clean_exit", "demo_refactored_exit", "suite")})
         continue
-    dst = os.path.join(HERE, "seeded", name)
+    dst = os.path.join(HERE, "seeded_open" if OPEN else "seeded", name)
     os.makedirs(dst, exist_ok=True)
     for fn in ("patch.diff", "demo.py"):
         shutil.copy(os.path.join(sd, fn), os.path.join(dst, fn))
@@ -38,7 +40,8 @@ for sd, c in sorted(conf.items()):
     res = run(dst)
     meta.update({
         "property": prop, "kind": "refactor", "origin": "independent sub-agent given only the property text and a scratch worktree",
-        "must_stay_silent": ALL,
+        "must_stay_silent": [] if OPEN else ALL,
+        **({"open_limit": "behaviour-preserving, but at least one check reports an alarm or an analysis error on it: see DESIGN.md 0.5 (round 4) and section 7"} if OPEN else {}),
         "confirmed_by_me": {
             "demo_without_change_exit": c["demo_clean_exit"], "demo_with_change_exit": c["demo_refactored_exit"],
             "suite_against_changed_source": c["suite"],
